@@ -26,10 +26,14 @@ def undirected(links):
     return {frozenset(l) for l in links}
 
 
-names = ['ring3', 'ring4', 'mesh4', 'house5'] if a.tier == 'quick' else ['ring3', 'ring4', 'mesh4', 'full4', 'house5']
+# a mesh with one unamplified (fused - fibre - fused) short line between A and B: its OMS hold no amplifier
+TOPOS['passive4'] = (['A', 'B', 'C', 'D'], [('A', 'C'), ('C', 'B'), ('A', 'D'), ('D', 'B'), ('A', 'B')])
+PASSIVE = {'passive4': [('A', 'B')]}
+names = ['ring3', 'ring4', 'mesh4', 'house5', 'passive4'] if a.tier == 'quick' else ['ring3', 'ring4', 'mesh4', 'full4', 'house5', 'passive4']
 for name in names:
     sites, links = TOPOS[name]
-    topo = mesh(sites, links, spans={l: LENS.get(l, LENS.get((l[1], l[0]), [80])) for l in links})
+    topo = mesh(sites, links, spans={l: ([20] if l in PASSIVE.get(name, []) else LENS.get(l, LENS.get((l[1], l[0]), [80]))) for l in links},
+                passive_links=PASSIVE.get(name, ()))
     net, eqpt = design(topo)
     build_oms_list(net, eqpt)
     by_uid = {n.uid: n for n in net.nodes()}
@@ -53,7 +57,15 @@ for name in names:
             for rid in str(rq.request_id).split(' | '):
                 by_id[rid] = p
         prob = []
-        for d in dsj:
+        # judged against the groups as they were declared (not as the implementation de-duplicated them)
+        class _G:
+            pass
+        declared = []
+        for sv in syncs:
+            g = _G()
+            g.disjunction_id, g.disjunctions_req = sv['synchronization-id'], list(sv['svec']['request-id-number'])
+            declared.append(g)
+        for d in declared:
             for x, y in itertools.combinations(d.disjunctions_req, 2):
                 px, py = by_id.get(str(x)), by_id.get(str(y))
                 if px and py:
@@ -85,6 +97,9 @@ for name in names:
         run(reqs, [sync(0, [0, 1, 2])], f'{name}:triple:{t}')
         run(reqs, [sync(0, [0, 1]), sync(1, [1, 2])], f'{name}:overlapping-groups:{t}')
         run(reqs, [sync(0, [0, 1]), sync(1, [1, 2]), sync(2, [0, 2])], f'{name}:three-pairs:{t}')
+        # a group contained in a larger one, in both declaration orders
+        run(reqs, [sync(0, [0, 1]), sync(1, [0, 1, 2])], f'{name}:nested-groups:{t}')
+        run(reqs, [sync(0, [0, 1, 2]), sync(1, [1, 2])], f'{name}:nested-groups-larger-first:{t}')
         others = [s for s in sites if s not in t[0]]
         if others:
             reqs2 = [service(0, *t[0], include=[f'roadm {others[0]}'], strict=True)] + reqs[1:]
